@@ -309,7 +309,8 @@ func (j *jsonReader) Tag() int {
 		return 0
 	}
 	if strings.HasPrefix(rawTag, "0x") {
-		parsedTag, err := strconv.ParseInt(rawTag[2:], 16, 32)
+		// A tag is an unsigned number: a negative one would be written back as a 64-bit pattern that cannot be read again.
+		parsedTag, err := strconv.ParseUint(rawTag[2:], 16, 31)
 		if err != nil {
 			// TODO: return error
 			return 0
